@@ -430,6 +430,10 @@ fn exec_resp(op: &[&str]) -> String {
             if start().count() != f.len() || start_own().count() != f.len() || start().rev().count() != f.len() {
                 return format!("diff:count-after-{skip}");
             }
+            // `ExactSizeIterator::len` (what `rev().enumerate()`, `rposition`, `with_capacity(it.len())` use)
+            if start().len() != f.len() || start_own().len() != f.len() || start().rev().len() != f.len() {
+                return format!("diff:len-after-{skip}");
+            }
             for k in 0..=f.len() + 1 {
                 if start().nth(k).map(|x| item_ref(Some(x))) != f.get(k).cloned() || start().nth_back(k).map(|x| item_ref(Some(x))) != b.get(k).cloned() {
                     return format!("diff:frames.nth({k})-after-{skip}");
